@@ -97,11 +97,11 @@ class Endpoint:
         net = self.net
         tape = sim.tape
         sim.yield_point()
-        self.sent_log.append((sim.vnow(), sim.next_seq(), bytes(data)))
         pos = 0
         data = bytes(data)
         if self.closed:
             raise OSError(9, 'Bad file descriptor')
+        self.sent_log.append((sim.vnow(), sim.next_seq(), data))
         while pos < len(data):
             if self.closed:
                 raise OSError(9, 'Bad file descriptor')
